@@ -55,6 +55,9 @@ func (in Input) Key() string {
 	return b.String()
 }
 
+// ClosedProm reports whether the config names servers on closed ports (use --offline).
+func (in Input) ClosedProm() bool { return strings.Contains(in.Config, "prometheus \"closed") }
+
 func (in Input) Online() bool { return strings.Contains(in.Config, PromURIPlaceholder) }
 
 // RealFiles lists the names of regular (non-symlink) files.
@@ -76,7 +79,8 @@ type GenOpts struct {
 	Online             bool // add a prometheus{} block pointing at PromURIPlaceholder
 	MinRuleBlocks      int  // lower bound on the number of rule{} blocks in the config
 	CommentPerKind     bool // all check blocks of one kind share their `comment` (see sevAttrs)
-	Bulk               bool // a third of the inputs get one extra file with 50-200 rules in one group
+	Bulk               bool // a third of the inputs get one extra file with 50-200 rules in one group, or 10-50 small files
+	PromFilters        bool // prometheus{} blocks with include/exclude path filters and tags (closed port unless Online)
 	Styles             gen.StyleOpts
 }
 
@@ -241,6 +245,31 @@ func bulkFile(n, k, variant int) string {
 	return b.String()
 }
 
+// spreadFile is file i of a bulk input spread over many files: recording rules
+// `shared:sum_j` repeat in every file, `file<i>:sum_j` are its own, plus a few alerts.
+func spreadFile(i, n, k, variant int) string {
+	var b strings.Builder
+	b.WriteString("groups:\n- name: g\n")
+	if k > 0 {
+		b.WriteString("  labels:\n")
+		for x := 0; x < k; x++ {
+			fmt.Fprintf(&b, "    %s: v%d\n", groupLabelKeys[x], x)
+		}
+	}
+	b.WriteString("  rules:\n")
+	for j := 0; j < n; j++ {
+		switch (j + variant) % 3 {
+		case 0:
+			fmt.Fprintf(&b, "  - record: shared:sum_%d\n    expr: sum(foo_%d) without(instance)\n", j, j)
+		case 1:
+			fmt.Fprintf(&b, "  - record: file%d:sum_%d\n    expr: sum(bar_%d) without(instance)\n", i, j, j)
+		default:
+			fmt.Fprintf(&b, "  - alert: Spread%03d_%d\n    expr: shared:sum_%d > %d\n    labels:\n      team: Spread%03d_%d\n", i, j, j, j, i, j)
+		}
+	}
+	return b.String()
+}
+
 // renderDoc renders groups (styled) plus optional extra raw rule nodes that
 // are appended to the last group.
 func renderDoc(s *gen.Styler, groups []gen.GroupSpec, extra []*gen.Node) string {
@@ -339,12 +368,26 @@ func GenInput(t *rapid.T, o GenOpts) Input {
 		n := rapid.IntRange(50, 200).Draw(t, "bulk.n")
 		k := rapid.SampledFrom([]int{0, 3, 3, 5, 6, 7, 4}).Draw(t, "bulk.k")
 		v := rapid.IntRange(0, 11).Draw(t, "bulk.variant")
-		in.Files = append(in.Files, FileSpec{Name: "bulk.yml", Content: bulkFile(n, k, v)})
-		tag["bulk"] = true
+		if rapid.Bool().Draw(t, "bulk.spread") {
+			// the same volume spread over 10-50 files whose recording rules repeat across
+			// files (rule/duplicate runs per entry and asks every server about every path)
+			nf := rapid.IntRange(10, 50).Draw(t, "bulk.nfiles")
+			for i := 0; i < nf; i++ {
+				name := fmt.Sprintf("bulk/file_%03d.yml", i)
+				if i%10 == 9 {
+					name = fmt.Sprintf("bulk/skip_%03d.yml", i)
+				}
+				in.Files = append(in.Files, FileSpec{Name: name, Content: spreadFile(i, max(2, n/nf), k, v)})
+			}
+			tag["bulk-spread"] = true
+		} else {
+			in.Files = append(in.Files, FileSpec{Name: "bulk.yml", Content: bulkFile(n, k, v)})
+			tag["bulk"] = true
+		}
 	}
 
 	var ctags []string
-	in.Config, ctags = GenConfig(t, o.Online, o.MinRuleBlocks, o.CommentPerKind)
+	in.Config, ctags = GenConfig(t, o.Online, o.MinRuleBlocks, o.CommentPerKind, o.PromFilters)
 	for _, c := range ctags {
 		tag[c] = true
 	}
@@ -518,7 +561,7 @@ func genMatch(t *rapid.T, lbl, word string) string {
 }
 
 // GenConfig draws a .pint.hcl over rule{} blocks with custom severities.
-func GenConfig(t *rapid.T, online bool, minBlocks int, commentPerKind bool) (string, []string) {
+func GenConfig(t *rapid.T, online bool, minBlocks int, commentPerKind, promFilters bool) (string, []string) {
 	var sb strings.Builder
 	var comments map[string]string
 	if commentPerKind {
@@ -529,16 +572,50 @@ func GenConfig(t *rapid.T, online bool, minBlocks int, commentPerKind bool) (str
 		sb.WriteString("parser {\n  relaxed = [\".*\"]\n}\n")
 		tags = append(tags, "relaxed")
 	}
+	// include/exclude path filters and tags of a prometheus{} block
+	pathFilters := func(lbl string) string {
+		if !promFilters {
+			return ""
+		}
+		var f strings.Builder
+		inc := rapid.SampledFrom([]string{"", "bulk/.*", "rules/.*|bulk/.*", ".*[.]ya?ml", "[a-c][.].*|bulk/.*|alerts/.*"}).Draw(t, lbl+".include")
+		exc := rapid.SampledFrom([]string{"", "bulk/skip_.*", "alerts/.*", ".*/file_0[0-4].*", "a.yml|rules/e.yml"}).Draw(t, lbl+".exclude")
+		if inc == "" && exc == "" {
+			exc = "bulk/skip_.*"
+		}
+		if inc != "" {
+			f.WriteString("  include = " + hclList([]string{inc}) + "\n")
+		}
+		if exc != "" {
+			f.WriteString("  exclude = " + hclList([]string{exc}) + "\n")
+		}
+		if rapid.Bool().Draw(t, lbl+".tags") {
+			f.WriteString("  tags = " + hclList([]string{rapid.SampledFrom([]string{"prod", "dev"}).Draw(t, lbl+".tag")}) + "\n")
+		}
+		return f.String()
+	}
+	if !online && promFilters && rapid.IntRange(0, 3).Draw(t, "cfg.closedProm") > 0 {
+		// servers nobody listens on: meant for --offline runs, where rule/duplicate still
+		// asks every server whether it is enabled for every path
+		np := rapid.IntRange(1, 3).Draw(t, "cfg.nclosed")
+		for i := 0; i < np; i++ {
+			fmt.Fprintf(&sb, "prometheus \"closed%d\" {\n  uri = \"http://127.0.0.1:%d\"\n  required = false\n%s}\n", i, i+1, pathFilters(fmt.Sprintf("cfg.closed%d", i)))
+		}
+		tags = append(tags, "prom-closed")
+	}
 	if online {
 		sb.WriteString("prometheus \"prom\" {\n  uri = \"" + PromURIPlaceholder + "\"\n  timeout = \"30s\"\n  rateLimit = 100000\n")
 		if rapid.IntRange(0, 3).Draw(t, "cfg.required") == 0 {
 			sb.WriteString("  required = true\n")
 		}
+		if rapid.Bool().Draw(t, "cfg.promfilt") {
+			sb.WriteString(pathFilters("cfg.prom"))
+		}
 		sb.WriteString("}\n")
 		tags = append(tags, "online")
 		if rapid.IntRange(0, 2).Draw(t, "cfg.prom2") == 0 {
 			// a second server: every online check runs once per server on each rule
-			sb.WriteString("prometheus \"prom2\" {\n  uri = \"" + PromURIAltPlaceholder + "\"\n  timeout = \"30s\"\n  rateLimit = 100000\n}\n")
+			sb.WriteString("prometheus \"prom2\" {\n  uri = \"" + PromURIAltPlaceholder + "\"\n  timeout = \"30s\"\n  rateLimit = 100000\n" + pathFilters("cfg.prom2") + "}\n")
 			tags = append(tags, "online2")
 		}
 	}
